@@ -98,6 +98,20 @@ def g6_modifiers(ctx, g, prefix):
     ctx.check(not missing, prefix, "G6|modifier-vocab", "G6: capture modifiers ⊇ {?, debug, %%, display, err, sval, serde} (missing: %s)" % (missing or "none"), W)
     parts = g.seq_of("kvp_modifiers")
     ctx.check(parts and parts[0]["k"] == "str" and parts[0]["v"] == ":", prefix, "G6|modifier-colon", "G6: a modifier is introduced by `:`", W)
+    # word modifiers end at an identifier boundary (`target: debug_target` is not key `target` with `:debug`)
+    words = [m_ for m_ in MODIFIERS if m_.isalpha()]
+    bounded = True
+    detail = []
+    for rn, r in g.rules.items():
+        direct = {a_["v"] for a_ in flatten(r["expr"], "choice") if a_["k"] == "str"} | \
+                 {a_["v"] for p_ in flatten(r["expr"], "seq") for a_ in flatten(p_, "choice") if a_["k"] == "str"}
+        if direct & set(words):
+            sq = flatten(r["expr"], "seq")
+            guard = len(sq) >= 2 and sq[-1]["k"] == "neg" and "XID_CONTINUE" in g.idents(sq[-1]["e"])
+            okr = r["ty"] in ("atomic", "compound_atomic") and guard
+            detail.append("%s:%s" % (rn, "bounded" if okr else "prefix match"))
+            bounded = bounded and okr
+    ctx.check(bounded and bool(detail), prefix, "G6|modifier-word", "G6: a word modifier is matched as a whole word (atomic rule ending in !XID_CONTINUE): %s" % detail, W)
     if len(parts) >= 2:
         alts = [a["v"] for a in g.choices_of(parts[1]) if a["k"] == "str"]
         shadow = [(alts[i], alts[j]) for i in range(len(alts)) for j in range(i + 1, len(alts)) if alts[j].startswith(alts[i]) and alts[i] != alts[j]]
@@ -144,35 +158,53 @@ def g8_no_backslash_first(ctx, g, prefix):
     ctx.check(not bad, prefix, "G8|backslash-first", "G8: nothing that may follow `(` starts with a backslash or ANY (so `info!(\\\"x\\\")` inside a string never matches)", W)
 
 
+STOPS_ALLOWED = {",", ";", "(", ")", "[", "]", "{", "}", '"', "\\", "'"}
+
+
+def _free_char_alts(g, e):
+    """alternatives of the shape `!(stops) ~ ANY` directly under a repetition / choice: [set of stop strings]"""
+    out = []
+    for alt in g.choices_of(e):
+        parts = flatten(alt, "seq")
+        if len(parts) == 2 and parts[0]["k"] == "neg" and parts[1].get("v") == "ANY":
+            out.append({a_["v"] for a_ in g.choices_of(parts[0]["e"]) if a_["k"] == "str"})
+    return out
+
+
 def g9_kvp_value(ctx, g, prefix):
+    """a key-value's value is an expression delimited by the next top-level `,` / `;`"""
     if not need(ctx, g, prefix, ["kvp_value"]):
         return
-    parts = g.seq_of("kvp_value")
-    ok_head = False
-    if parts:
-        heads = g.choices_of(parts[0])
-        ok_head = any(h["k"] == "rep1" and h["e"]["k"] == "ident" and h["e"]["v"] == "ASCII_DIGIT" for h in heads)
-    ctx.check(ok_head, prefix, "G9|digit-head", "G9: kvp_value has an ASCII_DIGIT+ head alternative (integer literals)", W)
-    # a value is an expression: it may also start with `-`, `&`, `(`, `'` ...: some head alternative must accept any
-    # character that is not a separator (or the head is optional), otherwise `a = -1;` loses the whole statement
-    any_head = False
-    if parts:
-        for h in g.choices_of(parts[0]):
-            hs = flatten(h, "seq")
-            if len(hs) == 2 and hs[0]["k"] == "neg" and hs[1].get("v") == "ANY":
-                stops_ = {a["v"] for a in g.choices_of(hs[0]["e"]) if a["k"] == "str"}
-                any_head = {",", ";"} <= stops_ and all(len(x) == 1 for x in stops_) and len(stops_) <= 3
-    ctx.check(any_head, prefix, "G9|any-head", "G9: a key-value's value may begin with any character other than a separator (`-1`, `&x`, `(a + b)`, `'c'`)", W)
-    ok_tail = False
-    if len(parts) == 2 and parts[1]["k"] == "rep":
-        t = flatten(parts[1]["e"], "seq")
-        if len(t) == 2 and t[1]["k"] == "ident" and t[1]["v"] == "ANY":
-            guards = g.choices_of(t[0])
-            neg = [x for x in guards if x["k"] == "neg"]
-            if neg:
-                stops = {a["v"] for a in g.choices_of(neg[0]["e"]) if a["k"] == "str"}
-                ok_tail = {",", ";"} <= stops
-    ctx.check(ok_tail, prefix, "G9|tail-stops", "G9: the value's tail stops at `,` and `;` (so `ref = 5,` / `ref = 5;` read back as `5`)", W)
+    e = g.inline(g.expr("kvp_value"))
+    # accepted shapes: (free | string | group ..)+   or   head ~ (tail)*  (the older spelling)
+    elems = None
+    if e["k"] in ("rep1",):
+        elems = e["e"]
+    else:
+        parts = flatten(e, "seq")
+        if len(parts) == 2 and parts[1]["k"] == "rep":
+            elems = parts[1]["e"]
+    free = _free_char_alts(g, elems) if elems is not None else []
+    stops = set().union(*free) if free else set()
+    ctx.check(bool(free) and {",", ";"} <= stops, prefix, "G9|tail-stops", "G9: outside literals and brackets a value stops at `,` and `;` (so `ref = 5,` / `ref = 5;` read back as `5`): stops %s" % sorted(stops), W)
+    ctx.check(bool(free) and stops <= STOPS_ALLOWED and not g.nullable(e), prefix, "G9|any-head",
+              "G9: a value may begin with any character other than a separator, bracket, quote or backslash (`-1`, `&x`, `5`, `name`); it is never empty (stops %s)" % sorted(stops), W)
+    ctx.check({")", "]", "}"} <= stops, prefix, "G9|balanced",
+              "G9: a value never crosses an unbalanced closing bracket, so it cannot leave the invocation it belongs to "
+              "(`if cfg!(feature = \"x\") { info!(n = 1; \"m\"); }`, `info!(count = n);` followed by a string literal)", W)
+    # a backslash occurs in Rust source only inside string / char literals: nowhere else in a value
+    bs_ok = "\\" in stops
+    for r in g.rules:
+        if r.startswith("kvp_") and r not in ("kvp_value", "kvp_args", "kvp_key", "kvp_modifiers") and g.rules[r]["ty"] == "silent":
+            for st_ in _free_char_alts(g, g.rules[r]["expr"]) + [x for sub in flatten(g.rules[r]["expr"], "choice") for x in _free_char_alts(g, sub)]:
+                if "'" in st_ and len(st_) <= 2:
+                    continue   # inside a character literal
+                bs_ok = bs_ok and "\\" in st_
+    ctx.check(bs_ok, prefix, "G9|no-backslash", "G9: outside string and character literals a value contains no backslash "
+              "(macro-like text in a string with escaped quotes, `\"info!(a = \\\"x\\\"; \\\"m\\\")\"`, is never matched)", W)
+    # a string literal inside a value is one element by itself: the separator after it is not swallowed
+    sl_alone = elems is not None and any(a_["k"] == "ident" and a_["v"] == "string_literal" for a_ in g.choices_of(elems))
+    ctx.check(sl_alone, prefix, "G9|string-element", "G9: a string literal inside a value is matched by itself (`a = &\"x\", b` keeps its separator)", W)
     ctx.check(g.ty("kvp_value") != "silent" and g.ty("kvp_key") != "silent", prefix, "G9|kv-visible", "G9: kvp_key / kvp_value are visible to the finder", W)
 
 
@@ -184,7 +216,7 @@ def target_rule(g):
         if kind in ("opt", "rule") and name in g.rules:
             # look at the rule's own expression (NOT inlined: a silent target rule must still be found)
             parts = flatten(g.rules[name]["expr"], "seq")
-            if parts and parts[0].get("k") == "str" and parts[0].get("v") == "target:":
+            if parts and parts[0].get("k") == "str" and (parts[0].get("v") == "target:" or (parts[0].get("v") == "target" and len(parts) > 1 and parts[1] == {"k": "str", "v": ":"})):
                 return name
     return None
 
@@ -212,6 +244,14 @@ def g10_target_visible(ctx, g, prefix):
         ctx.check(g.ty(T) != "silent", prefix, "G10|target-visible",
                   "G10: the target rule `%s` is a visible pair, so the structured-new anchor can be placed after it" % T, W)
     ta = flatten(g.inline(g.rules[T]["expr"]), "seq")
+    if len(ta) >= 2 and ta[0] == {"k": "str", "v": "target"} and ta[1] == {"k": "str", "v": ":"}:
+        ta = [{"k": "str", "v": "target:"}] + ta[2:]     # keyword and colon as two tokens (layout allowed between them)
+        two = True
+    else:
+        two = False
+    ctx.check(two, prefix, "G10|target-tokens", "G10: `target` and `:` are separate tokens, so white space or a comment may stand between them (`target : \"t\"`)", W)
+    if True:
+        pass
     mid = ta[1:-1]
     firsts = set()
     for m in mid:
@@ -338,6 +378,10 @@ def g15_kvp_args(ctx, g, prefix):
         last = inner[-1]
         inner_ok = inner_ok and last["k"] == "opt" and last["e"]["k"] == "str" and last["e"]["v"] == ","
     ctx.check(ok and inner_ok, prefix, "G15|kvp-shape", "G15: kvp_args = (key modifier? (`=` value)? `,`?)+ `;`", W)
+    # a key is an identifier or (log >= 0.4.21) a string literal: a string key taken for the message gets the token
+    kalts = [(a_["k"], a_.get("v")) for a_ in g.choices_of(g.expr("kvp_key"))]
+    ctx.check(("ident", "string_literal") in kalts and any(k == "ident" and v != "string_literal" for k, v in kalts), prefix, "G15|key-forms",
+              "G15: a key is an identifier or a string literal (`\"my key\" = 1; \"msg\"`): %s" % kalts, W)
 
 
 def scan_alignment(ctx, g, prefix):
@@ -395,7 +439,7 @@ def g16_strings_atomic(ctx, g, prefix):
         reps = []
         _until_reps(g.expr(name), reps)
         for stop in reps:
-            if "\"" in g.vocab(stop):
+            if "\"" in g.vocab(stop) and g.vocab(stop) <= {"\"", "\\"}:
                 bodies.append(name)
                 if "N" in how:
                     bad.append(name)
